@@ -348,7 +348,7 @@ func genC08Case(t *rapid.T) *C08Case {
 				}
 			}
 		}
-		if tag := rapid.SampledFrom(multiTags).Draw(t, "tag"); tag != "valid" {
+		if tag := rapid.SampledFrom(callTags).Draw(t, "tag"); tag != "valid" {
 			s.Tag = tag
 		}
 		if rapid.IntRange(0, 9).Draw(t, "emptyTagName") == 0 {
@@ -400,7 +400,7 @@ func genC08Case(t *rapid.T) *C08Case {
 		case k <= 5 && len(made) > 0: // the same value and type under another tag name
 			src := made[rapid.IntRange(0, len(made)-1).Draw(t, "retag")]
 			cp := *src.S
-			cp.Tag = rapid.SampledFrom([]string{"", "alipay", "wechat", emptyTag}).Draw(t, "newTag")
+			cp.Tag = rapid.SampledFrom([]string{"", "alipay", "wechat", emptyTag, "Valid"}).Draw(t, "newTag")
 			cp.pickEntry(rapid.IntRange(0, 7).Draw(t, "entry2"))
 			nc := &Call{S: &cp}
 			made = append(made, nc)
